@@ -24,6 +24,7 @@
 (*  Gc      T post q                 a collection pass                       *)
 (*  Delete  id post q                storage.delete_event                    *)
 (*  Crash   post                     process killed and store reopened       *)
+(*  Load    seq full post            cli `load` of a dump, store reopened    *)
 (*  Fault   id post q bc             Submit during which the engine failed   *)
 (*  Query   fs res                   a REQ's stored answer                   *)
 (*  Get     id found got via         get_event / GET /e/<id> (via = store|http)*)
@@ -64,6 +65,7 @@ Adopt(ln) ==
                  [] ln.a = "Gc"     -> [act |-> "Gc", T |-> ln.T]
                  [] ln.a = "Delete" -> [act |-> "Delete", id |-> ln.id]
                  [] ln.a = "Crash"  -> [act |-> "Crash"]
+                 [] ln.a = "Load"   -> [act |-> "Load", seq |-> ln.seq]
 
 \* does the specification's action explain the adopted step?
 Conforms(ln) ==
@@ -72,6 +74,10 @@ Conforms(ln) ==
       [] ln.a = "Gc"     -> S!Gc(ln.T)
       [] ln.a = "Delete" -> S!Delete(ln.id)
       [] ln.a = "Crash"  -> S!Crash
+         \* a load that ran to its end, or (full = FALSE: the command died on an event it could not digest) a prefix of it
+      [] ln.a = "Load"   -> /\ wq = <<>>
+                            /\ IF ln.full THEN store' \in S!LoadPosts(store, ln.seq)
+                               ELSE \E n \in 0..(Len(ln.seq) - 1) : store' \in S!LoadPosts(store, SubSeq(ln.seq, 1, n))
          \* an engine failure inside a Submit: the event is either not applied at all (and was
          \* then neither acknowledged as stored nor broadcast) or applied completely
       [] ln.a = "Fault"  -> \/ UNCHANGED <<store, wq>> /\ bcast' = bcast
@@ -80,7 +86,7 @@ Conforms(ln) ==
 Garbage(ln) == ~KnownIds(ln.post) \/ ("q" \in DOMAIN ln /\ ~KnownIds(WqIds(ln.q)))
                 \/ ("bc" \in DOMAIN ln /\ ~KnownIds(Range(ln.bc)))
 
-Mutating(ln) == ln.a \in {"Submit", "Writer", "Gc", "Delete", "Crash", "Fault"}
+Mutating(ln) == ln.a \in {"Submit", "Writer", "Gc", "Delete", "Crash", "Fault", "Load"}
 
 MutStep ==
     /\ Mutating(Line)
